@@ -59,6 +59,10 @@ def checkSqlr : P String := do
   let hasNull := rows.any (fun r => r.any (· == .nil))
   let nontriv := status == "ok" && rows.length ≥ 2 && hasNull
   let c20 := if status == "panic" then "fail:panic" else "ok"
-  pure s!"c14={c14} c20={c20} corr={corr} nontrivial={if nontriv then 1 else 0} st_handler={hk} st_entry={entry} st_status={status}"
+  -- C01 on an import: whatever is returned is rectangular and stored under own names
+  let c01 := match res with
+    | some f => if f.rect? then "ok" else "fail:not-rectangular"
+    | none => "ok"
+  pure s!"c01={c01} c14={c14} c20={c20} corr={corr} nontrivial={if nontriv then 1 else 0} st_handler={hk} st_entry={entry} st_status={status}"
 
 end Goframe.Driver
